@@ -294,7 +294,7 @@ def run(ctx):
     pr = ws.methods["_prune_and_rename"]
     _namespaces(ctx, r4, pr)
     pre_loops = [n for n in ast.walk(pr.node) if isinstance(n, ast.For) and any(isinstance(r, ast.Raise) for r in ast.walk(n))]
-    newspec_line = min([n.lineno for n in ast.walk(pr.node) if isinstance(n, ast.Assign) and isinstance(n.value, ast.Dict) and any(A.const_value(k) == "channels" for k in n.value.keys if k is not None)] or [0])
+    newspec_line = min([n.lineno for n in ast.walk(pr.node) if isinstance(n, ast.Dict) and any(A.const_value(k) == "channels" for k in n.keys if k is not None)] or [0])
     if len(pre_loops) >= 5 and all(l.lineno < newspec_line for l in pre_loops) and all(_exc(r) == "InvalidWorkspaceOperation" for l in pre_loops for r in ast.walk(l) if isinstance(r, ast.Raise)):
         ctx.holds(r4, f"{WS}::_prune_and_rename", f"{len(pre_loops)} unknown-name checks precede the rebuild")
     else:
